@@ -437,6 +437,124 @@ def pat_disjoint(p, q):
     return False
 
 
+# ---- finite pattern spaces: `match (a, b) { (Some(0), _) | .. }` as sets of cells
+class _NoCells(Exception):
+    pass
+
+
+def _pstrip(p):
+    while p.get("k") in ("PRef", "PType") or (p.get("k") == "PIdent" and p.get("sub")):
+        p = p.get("pat") or p.get("sub")
+    return p
+
+
+def _is_bind(p):
+    return p.get("k") in ("PWild", "PRest") or (p.get("k") == "PIdent" and not (p["id"][:1].isupper() or p["id"] == "None"))
+
+
+def _alts(p):
+    p = _pstrip(p)
+    if p.get("k") == "POr":
+        out = []
+        for c in p["cases"]:
+            out += _alts(c)
+        return out
+    return [p]
+
+
+def _pat_domain(pats):
+    """abstract values distinguishing everything the patterns distinguish"""
+    alts = [a for p in pats for a in _alts(p)]
+    conc = [a for a in alts if not _is_bind(a)]
+    if not conc:
+        return ["*"]
+    kinds = {a.get("k") for a in conc}
+    if kinds <= {"PTuple"}:
+        n = {len(a["elems"]) for a in conc}
+        if len(n) != 1:
+            raise _NoCells()
+        n = n.pop()
+        doms = [_pat_domain([a["elems"][i] for a in conc]) for i in range(n)]
+        out = [()]
+        for d in doms:
+            out = [x + (v,) for x in out for v in d]
+            if len(out) > 512:
+                raise _NoCells()
+        return out
+    if kinds <= {"PLit"}:
+        vals = sorted({repr(a["lit"].get("v")) for a in conc})
+        return vals + ["<other>"]
+    if kinds <= {"PTupleStruct", "PPath", "PIdent"}:
+        by = {}
+        for a in conc:
+            nm = a["id"] if a.get("k") == "PIdent" else a["path"]["s"].split("::")[-1]
+            by.setdefault(nm, []).append(a)
+        out = []
+        for nm in sorted(by):
+            subs = [a for a in by[nm] if a.get("k") == "PTupleStruct"]
+            if subs:
+                if any(len(a["elems"]) != 1 for a in subs):
+                    raise _NoCells()
+                for v in _pat_domain([a["elems"][0] for a in subs]):
+                    out.append((nm, v))
+            else:
+                out.append((nm,))
+        closed = {"Some": {"Some", "None"}, "None": {"Some", "None"}, "Ok": {"Ok", "Err"}, "Err": {"Ok", "Err"}}
+        universe = set()
+        for nm in by:
+            universe |= closed.get(nm, set())
+        for nm in sorted(universe - set(by)):
+            out.append((nm, "*") if nm in ("Some", "Ok", "Err") else (nm,))
+        if not universe:
+            out.append(("<other>",))
+        return out
+    raise _NoCells()
+
+
+def _pat_matches(p, v):
+    p = _pstrip(p)
+    if _is_bind(p):
+        return True
+    k = p.get("k")
+    if k == "POr":
+        return any(_pat_matches(c, v) for c in p["cases"])
+    if k == "PTuple":
+        return isinstance(v, tuple) and len(v) == len(p["elems"]) and all(_pat_matches(a, b) for a, b in zip(p["elems"], v))
+    if k == "PLit":
+        return v == repr(p["lit"].get("v"))
+    if k in ("PTupleStruct", "PPath", "PIdent"):
+        nm = p["id"] if k == "PIdent" else p["path"]["s"].split("::")[-1]
+        if not (isinstance(v, tuple) and v and v[0] == nm):
+            return False
+        if k == "PTupleStruct":
+            if len(v) < 2:
+                return False
+            return v[1] == "*" and all(_is_bind(_pstrip(e)) for e in p["elems"]) or (v[1] != "*" and _pat_matches(p["elems"][0], v[1])) \
+                or (v[1] == "*" and _is_bind(_pstrip(p["elems"][0])))
+        return True
+    raise _NoCells()
+
+
+def match_cells(arms):
+    """per arm, the cells of the scrutinee's abstract space for which it is the first match; None when the patterns
+    are outside the finite fragment (struct patterns, ranges, guards)"""
+    if any(a.get("guard") for a in arms):
+        return None
+    try:
+        dom = _pat_domain([a["pat"] for a in arms])
+        if dom == ["*"]:
+            return None
+        out = [[] for _ in arms]
+        for v in dom:
+            for i, a in enumerate(arms):
+                if _pat_matches(a["pat"], v):
+                    out[i].append(v)
+                    break
+        return out
+    except _NoCells:
+        return None
+
+
 def cond_literals(c, sign, lets, depth=0):
     """the literals (strings) of the conjunction that `c` (sign True) or its negation (sign False) stands for.
     && / || / ! are taken apart, `matches!`, `if let`, `.is_none()` & co. become `E ~ P`, comparisons are oriented,
@@ -532,16 +650,38 @@ def guard_literals(fn, want):
     LETS.clear()
     LETS.update(lets)
 
+    def diverges(block):
+        stmts = block if isinstance(block, list) else (block.get("stmts") if isinstance(block, dict) else None)
+        if not stmts:
+            return False
+        last = stmts[-1]
+        e = last.get("e") if last.get("k") == "ExprStmt" else last
+        return isinstance(e, dict) and (e.get("k") in ("Continue", "Return", "Break") or
+                                        (e.get("k") == "Macro" and e.get("path") in ("unreachable", "panic", "todo")))
+
     def visit(n, ctx):
         if isinstance(n, list):
+            cur = ctx
             for x in n:
-                visit(x, ctx)
+                visit(x, cur)
+                # early exits: what follows `let P = E else { diverge }` holds E ~ P; what follows
+                # `if C { diverge }` holds !C
+                if isinstance(x, dict) and x.get("k") == "Let" and x.get("else") is not None and x.get("init") is not None:
+                    cur = cur | cond_literals({"k": "LetCond", "pat": x["pat"], "e": x["init"]}, True, lets)
+                else:
+                    e_ = x.get("e") if isinstance(x, dict) and x.get("k") == "ExprStmt" else x
+                    if isinstance(e_, dict) and e_.get("k") == "If" and "else" not in e_ and diverges(e_["then"]):
+                        cur = cur | cond_literals(e_["cond"], False, lets)
             return
         if not isinstance(n, dict):
             return
         k = n.get("k")
         if want(n):
             out.append((n, frozenset(ctx)))
+        if k == "Let" and n.get("else") is not None and n.get("init") is not None:
+            visit(n["init"], ctx)
+            visit(n["else"], ctx | cond_literals({"k": "LetCond", "pat": n["pat"], "e": n["init"]}, False, lets))
+            return
         if k == "If":
             c = n["cond"]
             visit(c["e"] if c.get("k") == "LetCond" else c, ctx)
@@ -552,6 +692,12 @@ def guard_literals(fn, want):
         if k == "Match":
             visit(n["e"], ctx)
             scrut = _scrut(n["e"], lets).lstrip("&")
+            cells = match_cells(n["arms"]) if n["e"].get("k") == "Tuple" else None
+            if cells is not None:
+                # a match on a tuple of Options / literals: each arm stands for the cells it is the first match of
+                for a, cs in zip(n["arms"], cells):
+                    visit(a["body"], ctx | {f"{scrut} in {{" + "; ".join(sorted(repr(c_) for c_ in cs)) + "}"})
+                return
             prev = []
             for a in n["arms"]:
                 ps = pat_skel(a["pat"])
